@@ -193,6 +193,19 @@ CHECKS = {
             "not forced; UDP relay messages are covered by the codec part only.",
             "TLA+ specs + TLC exhaustive/simulate generation, replay against the real agent listener, codec transition replay",
             "DESIGN.md §3 C16"),
+    "C18": ("model_checking",
+            "Identity.tla models start-up as a sequence of steps (token stat/generate/write, per-service load-or-generate-then-store) with "
+            "a Kill enabled at every step, over any number of restarts with varying service sets; TLC checks WellFormed and Stable "
+            "exhaustively (2 items, 3 starts, 3 initial token states) and requires the transcribed deviation (write in place, adopt "
+            "unvalidated) to violate them; restart histories generated by TLC (5 service sets x completed/killed x initial token states) "
+            "are executed as separate lab processes on one data directory: starts marked killed receive SIGKILL at a seeded instant of "
+            "their start-up, every on-disk token state a kill can leave (absent, empty, prefixes of 1/10/19 characters, complete) is "
+            "prepared, and completed starts observe the identity from outside (event token, SSH host key, certificates after AUTH TLS / "
+            "STARTTLS / LDAP StartTLS, agent public key); WellFormed and Stable are evaluated on the observations.",
+            "Kill points are approximated by random instants plus the prepared token-file states; crash consistency inside badger is "
+            "observed, not modelled.",
+            "TLA+ spec + TLC exhaustive crash-point model, history generation, replay across real processes",
+            "DESIGN.md §3 C18"),
 }
 
 NOT_YET = "check not built yet in this session (see DESIGN.md §10 for the order of construction)"
